@@ -983,6 +983,14 @@ fn rename_typedef_refs(merge_module: &mut Module, rename_table: &HashMap<String,
         return;
     }
 
+    // MODULE.INSTANCE
+    for instance in &mut merge_module.instance {
+        // MODULE.INSTANCE.type_ref
+        if let Some(newname) = rename_table.get(&instance.type_ref) {
+            instance.type_ref = newname.to_owned();
+        }
+    }
+
     // MODULE.TYPEDEF_STRUCTURE
     for typedef_structure in &mut merge_module.typedef_structure {
         // MODULE.TYPEDEF_STRUCTURE.STRUCTURE_COMPONENT
